@@ -55,7 +55,7 @@ impl<'a> std::io::Write for Limited<'a> {
 #[repr(C)]
 struct GuardedArray<const N: usize> { left: [u8; G], cur: Cursor<[u8; N]>, right: [u8; G] }
 
-enum Call<'a> { Raw(Vec<Vec<u8>>), Enc(&'a [&'a str]), Val(&'a str) }
+enum Call<'a> { Raw(Vec<Vec<u8>>), Enc(&'a [&'a str]), Val(&'a str), Iter(&'a str, &'a str, Vec<u32>) }
 
 /// one Encoder method call `name[:arg]`.
 fn apply<W: Write>(e: &mut Encoder<W>, call: &str) -> Option<Result<(), Error<W::Error>>> {
@@ -114,7 +114,24 @@ fn drive<W: Write>(w: W, call: &Call) -> Option<(String, W)> {
             }
             Some((status, e.into_writer()))
         }
-        Call::Val(v) => with_value(v, EncInto(w))
+        Call::Val(v) => with_value(v, EncInto(w)),
+        Call::Iter(kind, mode, vals) => {
+            // `encode::ArrayIter` / `MapIter` over iterators whose size hint is exact, loose (upper bound only) or over-estimating
+            use minicbor::encode::{ArrayIter, MapIter};
+            let pairs: Vec<(u32, u32)> = vals.iter().enumerate().map(|(i, v)| (i as u32, *v)).collect();
+            let mut e = Encoder::new(w);
+            let r = match (*kind, *mode) {
+                ("array", "exact") => e.encode(ArrayIter::new(vals.iter())).map(|_| ()),
+                ("array", "loose") => e.encode(ArrayIter::new(vals.iter().filter(|_| true))).map(|_| ()),
+                ("array", "even")  => e.encode(ArrayIter::new(vals.iter().filter(|x| **x % 2 == 0))).map(|_| ()),
+                ("map", "exact") => e.encode(MapIter::new(pairs.iter().map(|p| (p.0, p.1)))).map(|_| ()),
+                ("map", "loose") => e.encode(MapIter::new(pairs.iter().map(|p| (p.0, p.1)).filter(|_| true))).map(|_| ()),
+                ("map", "even")  => e.encode(MapIter::new(pairs.iter().map(|p| (p.0, p.1)).filter(|p| p.1 % 2 == 0))).map(|_| ()),
+                _ => return None
+            };
+            let st = match r { Ok(()) => "ok".to_string(), Err(x) => format!("err {}", eclass(&x)) };
+            Some((st, e.into_writer()))
+        }
     }
 }
 
@@ -334,6 +351,17 @@ pub fn run_encseq(w: &[&str]) -> String {
     };
     if !canary_ok(&m, cap) { return "canary clobbered".into() }
     match rs { Some(rs) => format!("{} pos={} buf={}", rs, pos, hex(&m[G .. G + cap])), None => "bad-op".into() }
+}
+
+/// `sinkiter <kind> <cap> <array|map> <exact|loose|even> <n1,n2,…|->`: `Encoder::encode(ArrayIter / MapIter)` into a bounded sink.
+pub fn run_iter(w: &[&str]) -> String {
+    if w.len() != 5 { return "bad-op".into() }
+    let cap = match w[1].parse::<usize>() { Ok(c) => c, Err(_) => return "bad-op".into() };
+    let vals: Vec<u32> = match w[4] {
+        "-" => Vec::new(),
+        s => match s.split(',').map(|x| x.parse::<u32>()).collect::<Result<Vec<_>, _>>() { Ok(v) => v, Err(_) => return "bad-op".into() }
+    };
+    match run_kind(w[0], cap, &Call::Iter(w[2], w[3], vals)) { Some(s) => s, None => "bad-op".into() }
 }
 
 pub fn run_raw(w: &[&str]) -> String {
